@@ -671,6 +671,8 @@ impl<A: AvxNum, T: FftNum> AvxPlannerInternal<A, T> {
     ) -> MixedRadixPlan {
         // First step: If this size is already cached, return it directly
         if self.cache.contains_fft(len, direction) {
+            #[cfg(feature = "verif_hooks")]
+            crate::verif_hooks::probe(0);
             return MixedRadixPlan::cached(len);
         }
 
@@ -730,6 +732,12 @@ impl<A: AvxNum, T: FftNum> AvxPlannerInternal<A, T> {
             }
         }
 
+        #[cfg(feature = "verif_hooks")]
+        crate::verif_hooks::probe(match largest_cached_len {
+            CacheLocation::Base => 1,
+            CacheLocation::Radix(_, _) => 2,
+            CacheLocation::None => 3,
+        });
         // If we found a cached length within the plan, update the plan to account for the cache
         match largest_cached_len {
             CacheLocation::None => plan,
@@ -893,6 +901,8 @@ impl<A: AvxNum, T: FftNum> AvxPlannerInternal<A, T> {
                     if let Ok(raders_avx) = RadersAvx2::<A, T>::new(Arc::clone(&inner_fft)) {
                         wrap_fft(raders_avx)
                     } else {
+                        #[cfg(feature = "verif_hooks")]
+                        crate::verif_hooks::probe(8);
                         wrap_fft(RadersAlgorithm::new(inner_fft))
                     };
 
@@ -903,6 +913,8 @@ impl<A: AvxNum, T: FftNum> AvxPlannerInternal<A, T> {
             }
             MixedRadixBase::BluesteinsBase(len, inner_fft_len) => {
                 // Bluestein's has an inner FFT of arbitrary size. But we've already planned it, so just use what we planned
+                #[cfg(feature = "verif_hooks")]
+                crate::verif_hooks::probe(9);
                 let inner_fft = inner_fft_fn(self, inner_fft_len, direction);
 
                 // try to construct our AVX2 rader's algorithm. If that fails (probably because the machine we're running on doesn't have AVX2), fall back to scalar
